@@ -44,6 +44,7 @@ func plans(c *core.Ctx) []Plan {
 		{Name: "n3-byz3", Cfg: dkg.Cfg{N: 3, T: 2, Byz: []int{3}, PhaseLen: 3}, Ids: two, MaxLoss: 1, Worlds: 2},
 		{Name: "n4-t3-byz2", Cfg: dkg.Cfg{N: 4, T: 3, Byz: []int{2}, PhaseLen: 2}, Ids: one, MaxLoss: 1, PerStrat: 60, Worlds: 3},
 		{Name: "n4-t2-byz4", Cfg: dkg.Cfg{N: 4, T: 2, Byz: []int{4}, PhaseLen: 2}, Ids: one, MaxLoss: 1, PerStrat: 150, Worlds: 4},
+		{Name: "n4-t2-byz1", Cfg: dkg.Cfg{N: 4, T: 2, Byz: []int{1}, PhaseLen: 2}, Ids: two, MaxLoss: 1, PerStrat: 60, Worlds: 2},
 	}
 }
 
@@ -72,11 +73,11 @@ func validate(p Plan, trace []byte) (*VResult, error) {
 
 // Finding is one monitor failure on an observed run.
 type Finding struct {
-	Monitor string   `json:"monitor"`
-	Plan    Plan     `json:"plan"`
-	Strat   string   `json:"strat"`
-	Sched   int      `json:"sched"`
-	Line    J        `json:"line"`
+	Monitor string `json:"monitor"`
+	Plan    Plan   `json:"plan"`
+	Strat   string `json:"strat"`
+	Sched   int    `json:"sched"`
+	Line    J      `json:"line"`
 	run     *WorldRun
 }
 
